@@ -123,6 +123,8 @@ def check_compose(ctx, F, A):
                             saw.add("err")
                 why = "the decoder reader's result must reach parse_from unmodified and parse_from's result must be returned (None / WouldBlock short-circuit)"
             ctx.oblig(bool(ok))
+            if len(ctx.samples) < 6:
+                ctx.sample({"entry_point": "SmlReader::" + name, "path_calls": [short(e["key"]) for e in tr][:6], "returns": var, "pure_composition": bool(ok)})
             if not ok:
                 viol(ctx, "R-C10-COMPOSE", b, "%s" % sorted(saw), "SmlReader::%s: %s" % (name, why))
         if not saw:
